@@ -168,6 +168,17 @@ def gen_all(ctx):
         if r < 0.65: return b, [Fraction(0)] * n, xs, "x0_zero"
         return b, rand_vec(rng, n, dy), xs, "x0_rand"
 
+    # ---- fixed cases: the known findings and the boundary starts are exercised on every run
+    F_ = Fraction
+    t1 = [(0, 0, F_(2))]
+    add_group("bi", 1, t1, [F_(1)], [F_(0)], F_(1, 2**20), 10, ["cI", "x0_zero"], True, [F_(1, 2)], procs=(1, 2))
+    t3 = [(i, i, F_(3)) for i in range(3)]
+    add_group("bi", 3, t3, [F_(3), F_(6), F_(-3)], [F_(0)] * 3, F_(1, 2**20), 0, ["cI", "x0_zero"], True, [F_(1), F_(2), F_(-1)], procs=(1, 3, 5))
+    tt = rand_matrix(rng, 4, "tri"); xs4 = [F_(1), F_(-2), F_(3), F_(1)]; b4 = matvec(4, tt, xs4)
+    for solver in ("cg", "bi", "pcg"):
+        add_group(solver, 4, tt, b4, list(xs4), F_(1, 2**20), 0, ["tri", "exact_start"], True, xs4, procs=(1, 2, 3), seq=(solver != "pcg"))
+        add_group(solver, 4, tt, [F_(0)] * 4, [F_(0)] * 4, F_(1, 2**20), 0, ["tri", "b0_x0"], True, [F_(0)] * 4, procs=(1, 2), seq=(solver != "pcg"))
+    add_group("pcg", 4, tt, [F_(0)] * 4, [F_(1), F_(0), F_(-1), F_(2)], F_(1, 2**20), 3, ["tri", "b0"], True, [F_(0)] * 4, procs=(1, 2), seq=False)
     # ---- small exact systems: CG   (the exact model's numbers grow ~ k^2 bits after k iterations: sizes 9..12 only
     #      with integer tridiagonal data, zero start and few iterations)
     n_cg = ctx.scale(46, 460)
